@@ -1,11 +1,11 @@
 #!/bin/bash
 # usage: tools/runall.sh [tier] [seed]   -- runs every registered check once, prints exit codes and times
 tier=${1:-quick}; seed=${2:-1}
-cd /verif
+cd "$(dirname "$0")/.."
 for p in $(/venv/bin/python -c "import json;print(' '.join(c['property_id'] for c in json.load(open('MANIFEST.json'))['checks']))"); do
   s=$(date +%s)
-  VERIF_SEED=$seed /venv/bin/python -m vpbt $p --tier $tier > /tmp/runall_$p.log 2>&1
+  VERIF_SEED=$seed /venv/bin/python -m vpbt $p --tier $tier > /tmp/runall_${tier}_$p.log 2>&1
   rc=$?
   e=$(date +%s)
-  echo "$p rc=$rc $((e-s))s $(grep -c '^VIOLATION' /tmp/runall_$p.log) violations $(grep -c '^KNOWN-FINDING' /tmp/runall_$p.log) known"
+  echo "$p rc=$rc $((e-s))s $(grep -c '^VIOLATION' /tmp/runall_${tier}_$p.log) violations $(grep -c '^KNOWN-FINDING' /tmp/runall_${tier}_$p.log) known"
 done
